@@ -88,6 +88,21 @@ theorem afb1dOne_per_gen (w x : List R) (hL : 2 ≤ w.length) (hN : 1 ≤ x.leng
   · rw [if_pos h, if_pos (e1.mpr h), e5]
   · rw [if_neg h, if_neg (fun h' => h (e1.mp h')), e5]
 
+/-- the pad size read from the source yields PyWavelets' coefficient count: a stride-2 correlation of the signal extended by
+`p` samples has exactly `dwt_coeff_len(N, L)` outputs, for every N ≥ 1 and L ≥ 2 -/
+theorem afb1d_p_gives_coeff_len (N L : Nat) (hL : 2 ≤ L) (hN : 1 ≤ N) :
+    corrLen (N + (afb1d_p (dwtCoeffLen N L) N L).toNat) L 2 1 = dwtCoeffLen N L := by
+  have hp : afb1d_p (dwtCoeffLen N L) N L = ((2 * (dwtCoeffLen N L - 1) + L - N : Nat) : Int) := by
+    unfold afb1d_p dwtCoeffLen; omega
+  rw [hp, Int.toNat_natCast]
+  unfold corrLen dwtCoeffLen
+  split <;> omega
+
+/-- and the synthesis pad read from the source gives back `2n + 2 − L` samples -/
+theorem sfb1d_pad_gives_length (n L : Nat) (hL : 2 ≤ L) (hfit : L ≤ 2 * n + 1) :
+    ((sfb1d_N n - 2 + L : Int) - 2 * sfb1d_pad_W L).toNat = 2 * n + 2 - L := by
+  unfold sfb1d_N sfb1d_pad_W; omega
+
 /-! ### `sfb1d` -/
 
 theorem sfb1dCh_per_gen (g0 g1 lo hi : List R) (hL : 2 ≤ g0.length) (hg : g1.length = g0.length) (hn : 1 ≤ lo.length)
